@@ -456,6 +456,11 @@ func (b *UnsafeLinkBuffer) MallocAck(n int) (err error) {
 		}
 		b.write = b.write.next
 	}
+	if n == 0 {
+		// nothing is kept, and the loop above never looked at the flush node:
+		// what was malloc'ed on it has to be dropped too.
+		b.write.malloc = len(b.write.buf)
+	}
 	// discard the rest
 	for node := b.write.next; node != nil; node = node.next {
 		node.malloc, node.refer, node.buf = node.off, 1, node.buf[:node.off]
